@@ -62,53 +62,76 @@ def _guard_test_ok(t: ast.AST, var: str) -> Optional[str]:
 
 def _guards(ctx) -> None:
     prog = ctx.prog
-    # ---- construction
+    # ---- construction: before the columns are stored, a raise is taken whenever SOME incoming column's length differs from the
+    #      table length, and the table length is the first column's (symx: loop or any(...) form, helpers in line)
+    from ..sites2 import interp_of, single_element
+    from ..symx import NONE as _SN
+    from ..symx import const as _const
+    from ..symx import flatten_conds as _flat
+    from ..symx import show as _show
+    from ..symx import subterms as _sub
     f = prog.func("table.Table.__init__")
-    cfg = cfg_of(f)
-    sup = [n for n in cfg.stmt_nodes() if isinstance(n.ast, ast.Expr) and isinstance(n.ast.value, ast.Call)
-           and short(n.ast.value.func) == "super().__init__"]
+    it = interp_of(prog, f)
+    S0 = ("param", f.params[0])
+    sup = [e for e in it.events if e.kind == "call" and e.term[1][0] == "attr" and e.term[1][2] == "__init__"
+           and e.term[1][1][0] == "call" and e.term[1][1][1] == ("name", "super")]
     if len(sup) != 1:
         raise AnalysisError("Table.__init__: super().__init__ call not found")
     problems = []
-    loops = [s for s in f.body if isinstance(s, ast.For)]
-    guard_loop = None
-    for lp in loops:
-        if not isinstance(lp.target, ast.Name):
-            continue
-        v = lp.target.id
-        for s in lp.body:
-            if isinstance(s, ast.If) and any(isinstance(b, ast.Raise) for b in s.body) and _is_len_ne(s.test, v):
-                guard_loop = lp
-    if guard_loop is None:
-        # equivalent one-liner: if any(len(c) != self._length for c in initial): raise
-        for st in f.body:
-            if isinstance(st, ast.If) and any(isinstance(b, ast.Raise) for b in st.body) and isinstance(st.test, ast.Call) \
-                    and short(st.test.func) == "any" and st.test.args and isinstance(st.test.args[0], ast.GeneratorExp):
-                g = st.test.args[0]
-                if len(g.generators) == 1 and not g.generators[0].ifs and isinstance(g.generators[0].target, ast.Name) \
-                        and _is_len_ne(g.elt, g.generators[0].target.id):
-                    guard_loop = st
-                    guard_loop_iter = g.generators[0].iter
+    LEN = ("attr", S0, "_length")
+    lstores = [e for e in it.events if e.kind == "store" and e.term == LEN]
+    incoming = None
+    if len(lstores) != 1:
+        problems.append(f"_length is stored {len(lstores)} times in Table.__init__")
     else:
-        guard_loop_iter = guard_loop.iter
-    if guard_loop is None:
-        problems.append("no loop compares the length of every incoming column with the table length before the columns are "
-                        "stored: the row count is taken from the first column only, so unequal columns give a ragged table")
-    else:
-        if short(guard_loop_iter) != f.params[1]:
-            problems.append(f"the length guard ranges over `{short(guard_loop_iter)}`, not over all incoming columns `{f.params[1]}`")
-        gl = cfg.node_of(guard_loop)
-        if not cfg.dominates(gl, sup[0]):
-            problems.append("the length guard does not dominate the store of the columns")
-        # _length is taken from the same sequence
-        ls = [s for s in f.body if isinstance(s, ast.Assign) and short(s.targets[0]) == "self._length"]
-        if not ls or short(ls[0].value) != f"len({f.params[1]}[0]) if {f.params[1]} else 0":
-            problems.append(f"_length is `{short(ls[0].value) if ls else '?'}`, expected len(initial[0]) if initial else 0")
-        elif f.body.index(ls[0]) > f.body.index(guard_loop):
+        v = lstores[0].value
+        # len(INCOMING[0]) if INCOMING else 0
+        if v[0] == "ifexp" and v[3] == _const(0) and v[2][0] == "call" and v[2][1] == ("name", "len") and len(v[2][2]) == 1 \
+                and v[2][2][0] == ("sub", v[1], _const(0)):
+            incoming = v[1]
+        else:
+            problems.append(f"_length is `{_show(v, it)[:60]}`, expected len(initial[0]) if initial else 0")
+    guard_ev = None
+    if incoming is not None:
+        lens = (LEN, lstores[0].value)
+        for e in it.events:
+            if e.kind != "raise" or e.seq > sup[0].seq:
+                continue
+            # loop form: for c in INCOMING: if len(c) != LENGTH: raise
+            for L in e.loops:
+                lp = it.loops[L]
+                if lp.iter == incoming:
+                    el = ("elem", incoming, L)
+                    inside = _flat(e.conds[len(lp.conds):])
+                    if len(inside) == 1 and not inside[0][1] and inside[0][0][0] == "cmp" and inside[0][0][1] == "Eq" \
+                            and ("call", ("name", "len"), (el,), ()) in (inside[0][0][2], inside[0][0][3]) \
+                            and any(x in lens for x in (inside[0][0][2], inside[0][0][3])):
+                        guard_ev = e
+            # any() form
+            for t, pol in _flat(e.conds):
+                if pol and t[0] == "call" and t[1] == ("name", "any") and len(t[2]) == 1 and t[2][0][0] == "obj":
+                    se = single_element(it, t[2][0])
+                    if se is not None and len(se[0]) == 1 and it.loops[se[0][0]].iter == incoming and not se[1]:
+                        el = ("elem", incoming, se[0][0])
+                        c = se[2]
+                        if c[0] == "cmp" and c[1] == "NotEq" and ("call", ("name", "len"), (el,), ()) in (c[2], c[3]) \
+                                and any(x in lens for x in (c[2], c[3])):
+                            guard_ev = e
+        if guard_ev is None:
+            problems.append("no loop compares the length of every incoming column with the table length before the columns are "
+                            "stored: the row count is taken from the first column only, so unequal columns give a ragged table")
+        elif lstores[0].seq > guard_ev.seq and LEN in [x for c, _ in guard_ev.conds for x in _sub(c)]:
             problems.append("_length is computed after the guard that uses it")
-        # `initial` not rebound between guard and copy except by the copying statement
+        # the columns stored are the incoming ones (copied): the comprehension handed to super().__init__ ranges over INCOMING
+        data = sup[0].term[2][0] if sup[0].term[2] else None
+        from ..sites2 import comp_parts, leaves
+        for d in leaves(data) if data is not None else []:
+            cp = comp_parts(it, d)
+            if cp is not None and len(cp[0]) == 1 and it.loops[cp[0][0]].iter != incoming:
+                problems.append(f"the columns stored range over `{_show(it.loops[cp[0][0]].iter, it)[:50]}`, not over the incoming columns that "
+                                f"were length-checked")
     ctx.ob("a.length-guard", f, "construction", not problems, "all incoming columns are compared with the table length before the store",
-           guard_loop or f.node, message="; ".join(problems))
+           guard_ev.node if guard_ev is not None else f.node, message="; ".join(problems))
     # ---- replacement callers and >> {name: values}: decided on the symx event log (helpers evaluated in line, guard clauses as
     #      path conditions), so it does not matter where the guard is written as long as it holds at the store
     from ..symx import Interp as SInterp
